@@ -76,7 +76,7 @@ def random_coord(rnd, sz):
     return [rnd.choice([0, s - 1, s // 2, rnd.randrange(s), (1 << (s - 1).bit_length()) // 2 if s > 1 else 0]) % s for s in sz]
 
 
-OPTIONAL_CFGS = ("clang",)
+OPTIONAL_CFGS = ("clang", "bmi2macro")   # bmi2macro: bmi2 + every unknown guard macro defined (vlib.common.guard_macros)
 SKIPPED = []     # (translation unit, configuration, first diagnostic) left out of this run
 
 
